@@ -237,6 +237,20 @@ func literalFor(t string) string {
 	return ""
 }
 
+// litVariant varies the text of a string literal by the member it is for (no random draw: the other choices of a case
+// stay what they were): percent signs, escapes, a raw string — text that must reach the output byte for byte
+func litVariant(key, lit string) string {
+	if lit != `"lit  x"` {
+		return lit
+	}
+	h := 0
+	for _, c := range key {
+		h = h*31 + int(c)
+	}
+	variants := []string{lit, `"100%"`, `"%d of %s"`, "`raw %v`", `"tab\there"`, `"%%"`, lit}
+	return variants[h%len(variants)]
+}
+
 type gMethod struct {
 	name      string
 	doc       []string // comment lines (without //)
@@ -513,7 +527,7 @@ func (g *gen) genMethod(idx int, decl *strings.Builder, profile string) gMethod 
 			case 1:
 				add(" :map %s %s", g.pick(sps), v)
 			case 2:
-				if lit := literalFor(typeOfField(df, v)); lit != "" && typeOfField(df, v) != "int" || true {
+				if lit := litVariant(v, literalFor(typeOfField(df, v))); lit != "" && typeOfField(df, v) != "int" || true {
 					if lit == "" {
 						lit = "0"
 					}
@@ -632,7 +646,7 @@ func (g *gen) genMethod(idx int, decl *strings.Builder, profile string) gMethod 
 	// literal
 	if g.chance(0.2) && len(dps) > 0 {
 		dp := g.pick(dps)
-		lit := literalFor(typeOfField(df, strings.Split(dp, ".")[0]))
+		lit := litVariant(dp, literalFor(typeOfField(df, strings.Split(dp, ".")[0])))
 		if strings.Contains(dp, ".") {
 			lit = "" // nested member: its type is not tracked by the generator
 		}
